@@ -749,7 +749,10 @@ var hostTzTimes = []string{"00:30", "01:10", "01:45", "01:59", "02:00", "02:15",
 
 func genHostTzNames(r *Rng, zone string, n int) []string {
 	days := Pick(r, hostTzDays[zone])
-	day := days[r.Intn(2)]
+	day := days[0] // the spring-forward day (an hour that does not exist) twice as often as the fall-back day
+	if r.Chance(1, 3) {
+		day = days[1]
+	}
 	style := r.Intn(4)
 	seen := map[string]bool{}
 	var out []string
@@ -1841,7 +1844,7 @@ func c13Gen(r *Rng, n int, tier string) []Case {
 		cases = append(cases, cs)
 	}
 	// --sort date under another host time zone (child process): zone-less keys around DST changes
-	nHost := 14
+	nHost := 20
 	if tier == "thorough" {
 		nHost = 80
 	}
@@ -2148,7 +2151,7 @@ func main() {
 			"key recipes: numbers in several spellings (1, 1.0, 01, 1e0, -0, hex float, subnormal, > 2^53, out of range), nan/inf, text, number-like text (5x, 1,5), weekday/month names and abbreviations in random case, near-misses (sund, FR\\u0130), dates in 15 layouts incl. years 0001..9999 (instants outside the int64-nanosecond range), mixtures; values: distinct / many ties / all equal / int64 extremes. " +
 			"kinds: ax = every ordered pair on a fresh BuildSorter instance (decision matrix, compared off the diagonal; axioms on all triples in Coq); seq = 3..40 comparisons of distinct keys incl. swapped and repeated pairs on one instance; " +
 			"hist = a collector (MatchCounter.ItemsSortedBy, SubKeyCounter.ItemsSorted, TableAggregator.OrderedRows/OrderedColumns, AccumulatingGroup.Groups with SetSort({sum}) as in rare reduce) fed 5..30 samples interleaved with reads of the sorted view (rendered frames) on one sorter instance; the final read is compared with the model's function of the final totals alone; " +
-			"host-tz = 14 cases per run of --sort date (ax / seq / sort) on zone-less date keys inside and around the skipped and the repeated DST hour of America/New_York and Europe/Berlin, with the implementation run in a child process of the harness whose TZ is that zone (time/tzdata embedded): the order must be the model's, i.e. the same as under UTC; " +
+			"host-tz = 20 cases per run of --sort date (ax / seq / sort) on zone-less date keys inside and around the skipped and the repeated DST hour of America/New_York and Europe/Berlin, with the implementation run in a child process of the harness whose TZ is that zone (time/tzdata embedded): the order must be the model's, i.e. the same as under UTC; " +
 			"near-equal = numeric key families 1e-6..1e-15 apart around 1, 10, 100, 1e-10, 1e15, 0, -10 in several spellings (+x, x.0, exponent forms, fixed digits), compared exactly by the model; " +
 			"groups = rare reduce at the library level: an AccumulatingGroup with 1..3 group columns (values from small sets, so that groups share their first column; numbers and weekday names among them), no --sort expression / --sort {sum} / --sort \"{1} {0}\", plain or reversed text / numeric / contextual NameSorter, the same samples in 3 arrival orders with reads in between and a repeated final read; " +
 			"table = a TableAggregator with 2..6 rows and columns fed 6..36 cell samples interleaved with frames (OrderedRows + OrderedColumns on persistent sorters) and Trim calls as the commands make them (spark: keep the last n columns in the column sorter's order, every frame; value predicates lo <= val <= hi; column sets), more samples after trims; the final OrderedRows or OrderedColumns (mostly value, also text / numeric / the rest, any modifier) and the set of rows / columns left are compared with the model's function of the final cells alone; " +
